@@ -14,10 +14,12 @@ import argparse, hashlib, json, os, re, shutil, subprocess, sys, time
 from pathlib import Path
 
 VERIF = Path(__file__).resolve().parent.parent
-HARNESS = VERIF / "harness"
-BUILD = VERIF / ".build"
-EVID = VERIF / "evidence"
-REPLAYS = VERIF / "replays"
+# Scratch evaluation of seeded changes (tools/seedrun.py) redirects these to a private copy whose path dependency points
+# at a scratch worktree; registered checks never set them and always build /repo itself.
+HARNESS = Path(os.environ.get("VERIF_HARNESS_DIR", VERIF / "harness"))
+BUILD = Path(os.environ.get("VERIF_BUILD_DIR", VERIF / ".build"))
+EVID = Path(os.environ.get("VERIF_EVIDENCE_DIR", VERIF / "evidence"))
+REPLAYS = Path(os.environ.get("VERIF_REPLAYS_DIR", VERIF / "replays"))
 sys.path.insert(0, str(VERIF / "tools"))
 import props  # noqa: E402
 
@@ -99,7 +101,7 @@ def run_kani(prop, run, tier, idx, workdir):
     jobs = run.get("jobs", 12)
     cmd = kani_cmd(run, filters, tdir, ["-j", str(jobs), "--output-format", "terse", "-Z", "unstable-options",
                                         "--export-json", str(out_json), "--harness-timeout", "%ds" % run.get("harness_timeout", 600)])
-    rc, wall = sh(cmd, log, timeout=run.get("timeout", 3600), mem_gb=run.get("mem_gb", 12), stack_unlimited=run.get("stack_unlimited", False))
+    rc, wall = sh(cmd, log, timeout=run.get("timeout", 3600), mem_gb=run.get("mem_gb", 12), stack_unlimited=True)  # CBMC segfaults on 8 KiB+ objects with the default stack
     meta = {"cmd": " ".join(cmd), "rc": rc, "wall_s": round(wall, 1), "log": str(log), "cfg": run.get("cfg", "nostd")}
     if not out_json.exists():
         meta["error"] = "no result file (build failure, timeout or crash); see log"
@@ -144,7 +146,7 @@ def make_replay(prop, run, h, workdir):
     tdir = BUILD / ("%s-%s" % (prop, run.get("cfg", "nostd")))
     log = workdir / ("replay-%s.log" % harness_short(h))
     cmd = kani_cmd(run, [h], tdir, ["--exact", "-Z", "concrete-playback", "--concrete-playback=print"])
-    rc, wall = sh(cmd, log, timeout=run.get("timeout", 3600), mem_gb=run.get("mem_gb", 12), stack_unlimited=run.get("stack_unlimited", False))
+    rc, wall = sh(cmd, log, timeout=run.get("timeout", 3600), mem_gb=run.get("mem_gb", 12), stack_unlimited=True)
     txt = open(log, errors="replace").read()
     tests = PB_RE.findall(txt)
     if not tests:
